@@ -15,7 +15,7 @@ def pick(p, ids, hdir=None):
     return out
 LEVEL = "proof"
 UNITS = [dict(id="library_loader", harness="loader.c", entry="h_loader", sources=["plibraryloader-posix.c"], enforce=None, replace=[], canaries=2, timeout=300,
-              functions=["p_library_loader_new", "p_library_loader_free", "p_library_loader_get_symbol"]),
+              functions=["p_library_loader_new", "p_library_loader_free", "p_library_loader_get_symbol", "p_library_loader_get_last_error"]),
          dict(id="libsys_init_shutdown", harness="main.c", entry="h_init_shutdown", sources=["pmain.c"], enforce=None, replace=[], canaries=2, timeout=300, cbmc_flags=["--unwind", "17", "--unwinding-assertions"],
               functions=["p_libsys_init", "p_libsys_init_full", "p_libsys_shutdown"], bound="call-count loops of the harness (1..3 repetitions) and the 16-entry log fully unwound: complete for those repetition counts")] + \
     pick("C01", ["mutex_new_free"]) + pick("C02", ["posix_new_free"]) + pick("C03", ["cond_new_free"]) + pick("C05", ["unref", "local_new_free", "get_tls_key", "create_full", "create_internal", "init_shutdown"]) + \
